@@ -41,7 +41,15 @@ func ProcRuns(w *vt.W, rng *rand.Rand, runs int) {
 		}
 		b := []int{0, 1, 2, t, n + 1}[rng.Intn(5)]
 		q := 1 + rng.Intn(3)
-		fmt.Fprintf(os.Stderr, "procrun id=%d t=%d n=%d b=%d q=%d\n", id, t, n, b, q)
+		// some operations panic: fewer than there are workers, so that the queue is still drained
+		panicOps := map[int]bool{}
+		if t > 1 && n > 0 && rng.Intn(3) == 0 {
+			for k := 0; k < 1+rng.Intn(t-1) && k < n; k++ {
+				panicOps[1+rng.Intn(n)] = true
+			}
+		}
+		setPanicOps(panicOps)
+		fmt.Fprintf(os.Stderr, "procrun id=%d t=%d n=%d b=%d q=%d panics=%d\n", id, t, n, b, q, len(panicOps))
 		if id%3 == 2 {
 			// Wait right after Close, with room for every operation and result so that
 			// nothing blocks: when Wait returns every operation must have been run
@@ -64,7 +72,11 @@ func ProcRuns(w *vt.W, rng *rand.Rand, runs int) {
 				if v == nil && err == nil {
 					break
 				}
-				got = append(got, v.(int))
+				i, ok := resultOp(v, err)
+				if !ok {
+					bad = fmt.Sprintf("result (%v, %v) is not what any operation returned", v, err)
+				}
+				got = append(got, i)
 			}
 			sort.Ints(got)
 			w.Emit(vt.Ev{"op": "procrun", "id": id, "t": t, "n": n, "b": n + 1, "q": n + 1, "results": got, "closed": true,
@@ -101,12 +113,12 @@ func ProcRuns(w *vt.W, rng *rand.Rand, runs int) {
 					closed = true
 					break loop
 				}
-				i, _ := r[0].(int)
 				var err error
 				if r[1] != nil {
 					err = r[1].(error)
 				}
-				if (i%2 == 0) != (err != nil) || (err != nil && err.Error() != fmt.Sprintf("e%d", i)) {
+				i, ok := resultOp(r[0], err)
+				if !ok {
 					bad = fmt.Sprintf("result (%v, %v) is not what any operation returned", r[0], r[1])
 				}
 				got = append(got, i)
